@@ -65,17 +65,40 @@ static void make_input(const codec_t *c, uint64_t idx, rng_t *r, input_t *in) {
     in->model = model;
 }
 
-/* place `nb` encoded bytes where an over-read is observable */
+/* place `nb` encoded bytes where an over-read is observable: the copy ends exactly at the end of a
+ * heap block (ASan) and starts at a per-case misalignment of 0..15 bytes */
+static size_t g_enc_off = 0;
+static uint8_t *g_placed_base[8];
+static uint8_t *g_placed_ptr[8];
 static uint8_t *place_encoded(const uint8_t *src, size_t nb, uint8_t garbage) {
+    size_t off = g_enc_off;
 #if VERIF_ASAN
     (void)garbage;
-    return exact_copy(src, nb);
+    uint8_t *base = malloc(off + nb);
 #else
-    uint8_t *p = malloc(nb + 64);
-    memcpy(p, src, nb);
-    for (size_t i = 0; i < 64; i++) p[nb + i] = (uint8_t)(garbage + i * 29);
-    return p;
+    uint8_t *base = malloc(off + nb + 64);
+    for (size_t i = 0; i < 64; i++) base[off + nb + i] = (uint8_t)(garbage + i * 29);
 #endif
+    if (nb) memcpy(base + off, src, nb);
+    for (int i = 0; i < 8; i++) {
+        if (!g_placed_ptr[i]) {
+            g_placed_ptr[i] = base + off;
+            g_placed_base[i] = base;
+            return base + off;
+        }
+    }
+    fprintf(stderr, "place_encoded: table full\n");
+    exit(2);
+}
+static void placed_free(uint8_t *p) {
+    for (int i = 0; i < 8; i++) {
+        if (g_placed_ptr[i] == p) {
+            free(g_placed_base[i]);
+            g_placed_ptr[i] = NULL;
+            return;
+        }
+    }
+    free(p);
 }
 
 /* =================================================================== C02 */
@@ -100,7 +123,7 @@ static void c02_blocks32(const codec_t *c, const input_t *in) {
     if (used != nb) viol(KEY(key, c, "block32-consumed-differs-from-written"), "written %zu consumed %zu", nb, used);
     if (memcmp(v, o, sizeof v)) viol(KEY(key, c, "block32-value-mismatch"), "first values %u %u", v[0], o[0]);
     STAT_INC("c02_block32_cases");
-    free(enc);
+    placed_free(enc);
     free(buf);
 }
 
@@ -116,7 +139,9 @@ static void c02_case(uint64_t idx, rng_t *r) {
     size_t n = in.n;
     g_codec_cases[c - CODECS]++;
     if (distinct_add(&g_distinct, arr_sig(c, in.a, n)) && nontrivial(in.a, n)) STAT_INC("distinct_nontrivial");
-    snprintf(g_sub, sizeof g_sub, "codec=%s n=%zu model=%s", c->name, n, AM_NAMES[in.model]);
+    g_enc_off = (g & 1) ? (size_t)((g >> 1) & 15) : 0; /* encoded bytes start at every misalignment */
+    if (g_enc_off) STAT_INC("c02_misaligned_encoded_buffers");
+    snprintf(g_sub, sizeof g_sub, "codec=%s n=%zu model=%s srcalign=%zu", c->name, n, AM_NAMES[in.model], g_enc_off);
 
     uint8_t *dst = malloc(scratch_size(n));
     encinfo_t info;
@@ -151,7 +176,7 @@ static void c02_case(uint64_t idx, rng_t *r) {
         if (rn2 != rn || memcmp(out, out2, n * 8)) {
             viol(KEY(key, c, "decoder-depends-on-bytes-beyond-encoded-size"), "n=%zu model=%s", n, AM_NAMES[in.model]);
         }
-        free(enc2);
+        placed_free(enc2);
         free(out2);
     }
 #endif
@@ -192,11 +217,30 @@ static void c02_case(uint64_t idx, rng_t *r) {
     if ((!strcmp(c->name, "bp128.32") || !strcmp(c->name, "bp128.delta32")) && n >= 128) {
         c02_blocks32(c, &in);
     }
+    if (!strcmp(c->name, "delta.signed")) { /* single-delta writer/reader */
+        for (size_t k = 0; k < n && k < 64; k++) {
+            int64_t dv = (int64_t)in.a[k], back = ~dv;
+            uint64_t zz = dv >= 0 ? 2 * (uint64_t)dv : 2 * (uint64_t)(-(dv + 1)) + 1;
+            size_t need = 1 + (size_t)ref_bytes_needed(zz);
+            uint8_t *b = malloc(need);
+            g_ctx = "varintDeltaPut";
+            size_t w = varintDeltaPut(b, dv);
+            g_ctx = "varintDeltaGet";
+            size_t w2 = w == need ? varintDeltaGet(b, &back) : 0;
+            if (w != need || w2 != need || back != dv) {
+                viol(KEY(key, c, "single-delta-roundtrip"), "delta %" PRId64 " wrote %zu read %zu got %" PRId64, dv, w, w2, back);
+                free(b);
+                break;
+            }
+            free(b);
+            STAT_INC("c02_single_delta_roundtrips");
+        }
+    }
     if (want_sample() && nontrivial(in.a, n)) {
         sample("{\"codec\":\"%s\",\"model\":\"%s\",\"n\":%zu,\"encoded_bytes\":%zu,\"input\":\"%s\"}", c->name, AM_NAMES[in.model], n, ret, arr_preview(in.a, n));
     }
     free(out);
-    free(enc);
+    placed_free(enc);
 out:
     g_sub[0] = 0;
     free(dst);
@@ -276,7 +320,9 @@ static void c03_case(uint64_t idx, rng_t *r) {
         return;
     }
     gbuf_t gb;
+    g_gbuf_off = (g & 2) ? (size_t)((g >> 2) & 15) : 0; /* destination starts at every misalignment */
     gbuf_alloc(&gb, N, 4096, (uint8_t)(g * 7 + 1));
+    g_gbuf_off = 0;
     encinfo_t info;
     memset(&info, 0, sizeof info);
     g_ctx = c->encname;
@@ -310,6 +356,7 @@ static void c13_case(uint64_t idx, rng_t *r) {
     static int ncap = 0;
     if (!ncap) for (size_t i = 0; i < NCODECS; i++) if (CODECS[i].decode_cap && CODECS[i].param != -1) capidx[ncap++] = (int)i;
     const codec_t *c = &CODECS[capidx[g % (uint64_t)ncap]];
+    g_enc_off = (g & 1) ? (size_t)((g >> 1) & 15) : 0;
     char key[200];
     input_t in;
     if (!g_param[0]) g_param[0] = 1000;
@@ -382,7 +429,7 @@ static void c13_case(uint64_t idx, rng_t *r) {
         if (want_sample() && cap && cap < n) sample("{\"codec\":\"%s\",\"n\":%zu,\"capacity\":%zu,\"returned\":%zu}", c->name, n, cap, rr);
         gbuf_free(&gb);
     }
-    free(enc);
+    placed_free(enc);
     free(dst);
     free(in.a);
 }
